@@ -8,8 +8,10 @@ VMM_ASSUME = ['simulated machine: physical memory = host pages (frame = host add
 PROP = {
     'pkg': K + '/mm/vmm',
     'tests': [{'name': 'TestVerifC07', 'checks_quick': 150000, 'checks_thorough': 5000000},
+              {'name': 'TestVerifC07Tables', 'checks_quick': 12000, 'checks_thorough': 300000},
               {'name': 'TestVerifC07Pmm', 'pkg': K + '/mm/pmm', 'checks_quick': 8000, 'checks_thorough': 300000}],
-    'rule': 'Two tests. (pmm side) pmm.Init over generated memory maps, half of them sized so that the allocator state '
+    'rule': 'Three tests. (real tables) short histories of region mappings run by the C04 machine - real Map on junk-filled '
+            'frames, software MMU: after every operation exactly the pages of the mapped regions translate. (pmm side) pmm.Init over generated memory maps, half of them sized so that the allocator state '
             '(pool headers + bitmaps) is within one word of a page multiple: the pages Init maps through the region it '
             'reserved must be exactly the pages that cover the reserved size, each once, none outside. (vmm side) '
             'rapid generates sequences (<=40) of EarlyReserveRegion / MapRegion / IdentityMapRegion with sizes from '
